@@ -17,6 +17,7 @@
   sides — but still watched for stability like every other value.
 -/
 import Arrai.C03.Model
+import Arrai.C03.GenRel
 import Arrai.Core.Lit
 
 namespace Arrai.C03
@@ -493,9 +494,10 @@ def corpus : List Case :=
       (.piece 1 0 0, false), (.with_ 2 .A 1 (.num 9), false), (.front 0 1, false), (.with_ 4 .A 2 (.num 8), false)]
 
 def gen (seed n : Nat) (thorough : Bool) : List Case := Id.run do
-  let mut out : List (List Case) := [corpus]
+  let mut out : List (List Case) := [Rel.relCorpus, corpus]
   for i in [0:n] do
-    let (cs, _) := (genHist i).run (seedOf seed (300000 + i))
+    -- every third history is a relational one (joins on join results, headings and rows)
+    let (cs, _) := (if i % 3 == 2 then Rel.genRelHist i else genHist i).run (seedOf seed (300000 + i))
     out := cs :: out
   if thorough then out := exhaustive :: out
   pure out.reverse.flatten
